@@ -211,7 +211,7 @@ func c06ReadSize(rt *rapid.T, r *c06Reader, allowJump bool) (int, byte) {
 		return max(0, toBoundary+rapid.IntRange(-1, 1).Draw(rt, "readD")), 'b'
 	case cls <= 16:
 		return node*rapid.IntRange(2, 6).Draw(rt, "readK") + rapid.IntRange(-2, 2).Draw(rt, "readD"), 'k'
-	case cls == 17 && r.total() >= 0:
+	case cls == 17 && r.total() >= 0 && r.total()-r.pos <= 200000:
 		// up to just before / exactly / past the end
 		return max(0, r.total()-r.pos+rapid.IntRange(-node-1, 3).Draw(rt, "readEnd")), 'e'
 	default:
